@@ -179,7 +179,8 @@ impl Response {
                 let (name, value) = line_without_crlf
                     .split_once(':')
                     .ok_or(ResponseError::Response)?;
-                headers.add(HeaderType::from(name), value.trim_start());
+                // Optional whitespace around the value is not part of it.
+                headers.add(HeaderType::from(name), value.trim());
             }
         }
 
